@@ -217,6 +217,7 @@ static AbSynList	scoDefineList;
 static LambdaInfoList	scoLambdaList;
 static IdInfoList	scoIdInfoList;
 static Bool		scoUndoState;
+static int		scoUndoStepNo;	/* the interactive step to be undone */
 static SymeList		scoUndoSymes;
 static TFormList	scoUndoTForms;
 static ScoConditionList	scoCondList;
@@ -531,7 +532,8 @@ scobindMaxDef()
 void
 scoSetUndoState(void)
 {
-	scoUndoState = true;
+	scoUndoState  = true;
+	scoUndoStepNo = intStepNo;
 }
 
 void
@@ -3198,7 +3200,7 @@ idInfoFree(IdInfo idInfo)
 local Bool
 idInfoIsNew(IdInfo idInfo)
 {
-	return idInfo->intStepNo == intStepNo - 1;
+	return idInfo->intStepNo == scoUndoStepNo;
 }
 
 local void
@@ -3354,7 +3356,7 @@ declInfoFree(DeclInfo di)
 local Bool
 declInfoIsNew(DeclInfo di)
 {
-	return di->intStepNo == intStepNo - 1;
+	return di->intStepNo == scoUndoStepNo;
 }
 
 local Bool
@@ -4165,19 +4167,19 @@ scoUndoTFormUses(TFormUses tfu)
 local Bool
 isNewSyme(Syme syme)
 {
-	return symeIntStepNo(syme) == intStepNo - 1;
+	return symeIntStepNo(syme) == scoUndoStepNo;
 }
 
 local Bool
 isNewTForm(TForm tf)
 {
-	return tf->intStepNo == intStepNo - 1;
+	return tf->intStepNo == scoUndoStepNo;
 }
 
 local Bool
 isNewTFormUses(TFormUses tfu)
 {
-	return tfu->tf->intStepNo == intStepNo - 1;
+	return tfu->tf->intStepNo == scoUndoStepNo;
 }
 
 
